@@ -132,6 +132,17 @@ func costChain(n int) string {
 	return b.String()
 }
 
+// the family of Cplx/CostWalkProofs.v (cost_walk_exponential): both spreads in one selection set
+func costChainFlat(n int) string {
+	var b strings.Builder
+	b.WriteString("{...F0}")
+	for i := 0; i < n; i++ {
+		fmt.Fprintf(&b, " fragment F%d on T{...F%d ...F%d}", i, i+1, i+1)
+	}
+	fmt.Fprintf(&b, " fragment F%d on T{i}", n)
+	return b.String()
+}
+
 func wideSameField(n int) string  { return "{" + rep("i ", n) + "}" }
 func wideSameObject(n int) string { return "{" + rep("a{i} ", n) + "}" }
 func wideAliases(n int) string {
@@ -261,6 +272,7 @@ func families() []family {
 		{"repeated-spreads", "merge", repeatedSpreads, []int{1, 2, 3, 5, 10, 30, 100, 300}, []int{1, 2, 3, 5, 10, 30, 100, 300, 1000}},
 		{"same-spread-twice", "frag", sameSpreadTwice, []int{1, 2, 3, 10, 100, 1000}, []int{1, 2, 3, 10, 100, 1000, 5000}},
 		{"cost-chain", "cost", costChain, seq(1, 18, 1), seq(1, 20, 1)},
+		{"cost-chain-flat", "cost", costChainFlat, seq(0, 18, 1), seq(0, 20, 1)},
 		{"wide-same-field", "wide", wideSameField, widths, widthsT},
 		{"wide-same-object", "wide", wideSameObject, []int{10, 30, 100, 300, 600}, []int{10, 30, 100, 300, 1000, 2000}},
 		{"wide-aliases", "wide", wideAliases, widthsLin, widthsLin},
